@@ -11,13 +11,14 @@ cd $wt && git checkout -- .
 res() { echo "$1"; }
 if ! git apply $src/patch.diff; then echo "RESULT patch-does-not-apply"; git -C /repo worktree remove --force $wt; exit 1; fi
 find $wt -name "*.o" -o -name "*.lo" | xargs rm -f; rm -f $wt/libisal.la $wt/.libs/libisal.a
+mkdir -p $wt/_seed; cp $src/demo.c $wt/_seed/demo.c   # demos may #include ../<dir>/<file>.c of the tree under test
 suite=$(make -j16 check 2>&1 | grep -E "^# (PASS|FAIL|ERROR)" | tr '\n' ' ')
-gcc -O1 -g -I$wt/include $src/demo.c $wt/.libs/libisal.a -lpthread -lz -lm -o $wt/demo_with 2>$wt/demo_cc.log || { echo "RESULT demo-does-not-compile"; cat $wt/demo_cc.log | head; }
+gcc -O1 -g -I$wt/include $wt/_seed/demo.c $wt/.libs/libisal.a -lpthread -lz -lm -o $wt/demo_with 2>$wt/demo_cc.log || { echo "RESULT demo-does-not-compile"; cat $wt/demo_cc.log | head; }
 timeout 600 $wt/demo_with > $wt/demo_with.out 2>&1; rc_with=$?
 git checkout -- . ; git apply -R $src/patch.diff 2>/dev/null; git checkout -- .
 find $wt -name "*.o" -o -name "*.lo" | xargs rm -f; rm -f $wt/libisal.la $wt/.libs/libisal.a
 make -j16 >/dev/null 2>&1
-gcc -O1 -g -I$wt/include $src/demo.c $wt/.libs/libisal.a -lpthread -lz -lm -o $wt/demo_without 2>/dev/null
+gcc -O1 -g -I$wt/include $wt/_seed/demo.c $wt/.libs/libisal.a -lpthread -lz -lm -o $wt/demo_without 2>/dev/null
 timeout 600 $wt/demo_without > $wt/demo_without.out 2>&1; rc_without=$?
 echo "RESULT suite=[$suite] demo_with_change_rc=$rc_with demo_without_change_rc=$rc_without"
 echo "--- demo output with change (tail):"; tail -3 $wt/demo_with.out
